@@ -18,6 +18,8 @@ import vlib
 from vlib import log
 
 LEVEL = "model_checking"
+# VERIF_UNSTEER=F29,F31 ./check ...: switch the steering around the named recorded findings off (to test a candidate repair)
+UNSTEER = ["--unsteer", os.environ["VERIF_UNSTEER"]] if os.environ.get("VERIF_UNSTEER") else []
 _lock = threading.Lock()
 _counter = itertools.count()
 
@@ -282,7 +284,7 @@ def random_trees(ctx, runs):
     def one(ir):
         i, (seed, docs, queries, extra) = ir
         tp = ctx.path(f"rand{i}_trace.ndjson")
-        vlib.run_bin("query_driver", ["random", "--seed", seed, "--docs", docs, "--queries", queries, "--out", tp] + extra, timeout=900, mem_gb=12)
+        vlib.run_bin("query_driver", ["random", "--seed", seed, "--docs", docs, "--queries", queries, "--out", tp] + extra + UNSTEER, timeout=900, mem_gb=12)
         ev = vlib.read_ndjson(tp)
         n = validate(ctx, ev, f"rand{i}")
         info = next((e for e in ev if e.get("ev") == "info" and "segments" in e), {})
